@@ -66,6 +66,24 @@ def direct_checks(chk, model, zeros, info, rng):
             ans = model.calculate_many_marginals(queries[1:])
             for q in queries[1:]:
                 answers.append(('calculate_many_marginals', q, np.asarray(ans[q].values, dtype=float).reshape([cfg[a] for a in q])))
+        # synthetic records: none may fall into a declared-impossible cell
+        if rng.random() < 0.7:
+            method = rng.choice(['round', 'sample']); rows = rng.choice([None, 60, 300]) if total >= 1 else 60
+            np.random.seed(rng.randrange(2 ** 31))
+            chk.count('direct.synthetic_data.' + method)
+            try:
+                df = model.synthetic_data(rows=rows, method=method).df
+            except Exception as e:
+                chk.violation(dict(kind='zeros', engine=info['engine'], what='synthetic_data raised'), 'synthetic_data(%s) raised %s: %s' % (method, common.exc_kind(e), str(e)[:80]), info, found_input=True)
+                df = None
+            if df is not None:
+                for cl, cells in zeros.items():
+                    sub = [tuple(int(v) for v in r) for r in df[list(cl)].values]
+                    hit = [c for c in sub if c in set(map(tuple, cells))]
+                    if hit:
+                        chk.violation(dict(kind='zeros', engine=info['engine'], what='synthetic record in an impossible cell'),
+                                      'synthetic_data(%s): %d of %d records lie in the declared-impossible cell %s of %s' % (method, len(hit), len(sub), list(hit[0]), ''.join(cl)), dict(info, method=method, rows=rows), found_input=True)
+                        break
     for kind, q, arr in answers:
         chk.case(('direct', info['id'], kind, q), True)
         chk.count('direct.' + kind)
@@ -98,6 +116,28 @@ def main(chk):
     for it in range(n):
         prob = infgen.gen_problem(rng)
         zeros = gen_zeros(rng, prob)
+        if it % 6 == 0:
+            # directed: independent blocks - the measurements cover one group of attributes, a zero set lives on a pair of attributes that is
+            # not linked to them (several connected components in the model graph)
+            prob2 = infgen.gen_problem(rng, max_attrs=4)
+            at = list(prob2['attrs'])
+            if len(at) >= 4:
+                rng.shuffle(at)
+                blocks = [tuple(at[:2]), tuple(at[2:4])]
+                cfgp = dict(zip(prob2['attrs'], prob2['sizes']))
+                keep = [m for m in prob2['ms'] if set(m['proj']) <= set(blocks[0])]
+                p0 = cfgp[blocks[0][0]] * cfgp[blocks[0][1]]
+                mv = np.array([rng.random() + 0.1 for _ in range(p0)]); mv = mv * prob2['N'] / mv.sum()
+                keep.append(dict(proj=blocks[0], Q=np.eye(p0), y=mv + np.array([rng.gauss(0, 1.0) for _ in range(p0)]), sigma=1.0, kind='identity', spelling='dense', mv=mv))
+                prob2['ms'] = keep
+                z2 = {}
+                for bl in blocks:      # one zero set per block: whichever block is generated second must still respect its own
+                    cells = {tuple(rng.randrange(cfgp[a]) for a in bl) for _ in range(rng.randint(1, 3))}
+                    if len(cells) < cfgp[bl[0]] * cfgp[bl[1]] - 1:
+                        z2[bl] = sorted(cells)
+                if len(z2) == 2:
+                    prob, zeros = prob2, z2
+                    chk.count('directed.zero-sets-on-independent-blocks')
         if not zeros:
             continue
         engine = ['MD', 'RDA', 'IG'][it % 3]
@@ -127,10 +167,10 @@ def main(chk):
     c08.judge(chk, lines, pend)
     return chk.finish(rule='random problems as in C08 with 1-2 zero sets (on a measured clique in any attribute order, a sub-clique, or an unmeasured attribute group; 1-3 forbidden cells, support never empty) x '
                       'solvers MD/RDA/IG x iterations {1,30,150} x warm start on/off x a second estimate call on the same engine (changed measurement list). Direct: project on the zero clique, on a random '
-                      'superset in random order, the full data vector, calculate_many_marginals: mass on declared cells <= 1e-30*total, finite, sums to total. Plus the exact comparison against the joint of the '
+                      'superset in random order, the full data vector, calculate_many_marginals: mass on declared cells <= 1e-30*total, finite, sums to total; synthetic_data (round/sample): no record in a declared cell. Plus the exact comparison against the joint of the '
                       'stored parameters (as C08). All cases non-trivial.',
                       assumptions=['IG/RDA return parameters through Factor.log (+1e-100): zero cells legitimately carry ~1e-100*total, hence the 1e-30 threshold',
-                                   'synthetic records are covered by C11'])
+                                   'synthetic records: membership in declared cells is checked here, their distribution by C11'])
 
 
 def replay(chk, rp):
